@@ -796,6 +796,47 @@ class Session(Gen):
         return self
 
 
+def reply_close_cases(rng, kinds=("chan", "conn"), prefix="q"):
+    """Directed: a call in flight on channel 1 (a second channel stays busy); its reply and a server
+    close arrive back to back - in one read, in two reads, or handed over directly - before / after
+    the caller takes the reply; queue bound 0 (treated as 1), 1, 2, 16."""
+    cases = []
+    n = 0
+    for bound in (0, 1, 2, 16):
+        for kind in kinds:
+            for how in ("one-read", "two-reads", "direct"):
+                for take_first in (False, True):
+                    g = Gen(rng, chmax=4, bound=bound, via_stream=0.0)
+                    h1 = g.open_channel(1); g.bind_opened(h1, 1)
+                    h2 = g.open_channel(2); g.bind_opened(h2, 2)
+                    cl = g.consume(h2, "t2")
+                    g.op("send %s send %s" % (h1, hx(amqp.client_only_samples(1)["queue.declare"]))); g.op("ev 1")
+                    g.op("send %s send %s" % (h2, hx(amqp.client_only_samples(2)["basic.qos"]))); g.op("ev 2")
+                    rep = g.use(queue_declare_ok(1, "q", 3, 1))
+                    close = g.use(chan_close(1, 406, "PRECONDITION_FAILED") if kind == "chan" else conn_close(320, "CONNECTION_FORCED"))
+                    if take_first:
+                        g.op("frame " + hx(rep.bytes)); g.op("recv %s -" % h1)
+                        g.op("frame " + hx(close.bytes))
+                    elif how == "one-read":
+                        g.op("feed c:%s" % (rep.bytes + close.bytes).hex()); g.op("ev stream r")
+                    elif how == "two-reads":
+                        g.op("feed c:%s wb c:%s" % (rep.bytes.hex(), close.bytes.hex())); g.op("ev stream r"); g.op("ev stream r")
+                    else:
+                        g.op("frame " + hx(rep.bytes)); g.op("frame " + hx(close.bytes))
+                    g.op("recv %s -" % h1); g.op("recv %s -" % h1)
+                    # the other channel: its reply still arrives (channel close) / it is told (connection close)
+                    if kind == "chan":
+                        g.feed([simple_ok(2, "basic.qos-ok")], direct=True)
+                        g.feed(g.deliver(cl), direct=True)
+                    g.op("recv %s -" % h2)
+                    g.op("crecv " + cl); g.op("crecv " + cl)
+                    g.op("wscript w:1000000"); g.op("write")
+                    g.finish()
+                    n += 1
+                    cases.append(g.case("%s%d" % (prefix, n)))
+    return cases
+
+
 def align(ops, lines):
     """Pair every op of a machine case with the output lines it produced."""
     out = []
